@@ -43,7 +43,8 @@ def shards(tier, seed):
 def set_values(lt, cur, n):
     kind = lt[1]
     if kind[0] == "f":
-        c = [float(n % 90) + 2.75, -3.0e38 if kind == "f32" else -1.7e308, float("inf")]
+        # ... then the two zeros one over the other (equal as values, different bits: "exactly the value passed")
+        c = [float(n % 90) + 2.75, -3.0e38 if kind == "f32" else -1.7e308, float("inf"), 0.0, -0.0, 0.0]
     else:
         lo, hi = xt.int_range(kind)
         c = [(n * 7 + 3) % hi + 1, lo, hi]
